@@ -11,7 +11,7 @@ PROP = "C10"
 RULE = (
     "subcheck 'real': POO over recording subclasses of T_HOO/HCT/VHCT x rho_max in [0.84, 0.995] x nu_max x horizon x partition x box "
     "x reward law, drawn by Hypothesis; subcheck 'schedule': POO with an O(1) stub learner, enumerated over a grid of rho_max values x "
-    "base names, 1500 (thorough 6000) rounds each. Oracle per round: during POO.pull exactly one learner's pull runs and its result "
+    "base names, 3000 (thorough 8000) rounds each. Oracle per round: during POO.pull exactly one learner's pull runs and its result "
     "is returned; during POO.receive_reward exactly that learner's receive_reward runs once with that reward and no other learner is "
     "touched; the learner list only grows and earlier entries keep their identity; every learner was built with nu_max and a rho = "
     "rho_max^(2N/(2i+1)), N a power of two, 0 <= i < N, in (0, rho_max), pairwise distinct; after every round V_reward[j] equals the "
@@ -217,7 +217,7 @@ def check_case(case):
 
 
 def stub_cases(tier):
-    k, T = (96, 1500) if tier == "quick" else (400, 6000)
+    k, T = (192, 3000) if tier == "quick" else (400, 8000)
     out = []
     for j in range(k):
         rm = 0.84 + (0.999 - 0.84) * j / (k - 1)
@@ -259,4 +259,4 @@ def run_shard(ctx):
     ctx.drive("real", gen.run_case(names=["POO"], poo_ok_only=True, n_range=(100, 600) if quick else (100, 3000),
                                    script_prob=0.2, full_T_prob=0.5, T_min=20, T_max=600 if quick else 3000,
                                    laws=["noise", "peak", "negative", "ties", "large", "bump", "ramp", "const"]),
-              check_case, ctx.budget(800, 12000))
+              check_case, ctx.budget(3000, 20000))
